@@ -26,8 +26,20 @@ Judge(c) ==
    rounding_without_spec |-> {n \in RoundedInDag(tab, T) : <<tab[n].round, n>> \notin specs},
    dag_nodes |-> Cardinality(Ancestors(tab, T) \cap DOMAIN tab),
    leaves |-> Cardinality(Leaves(tab, T))]
+\* check_minimal_specification: the data columns a call does not need are exactly the data columns that are
+\* neither a leaf of the pruned graph nor an overriding column inside it (interface._reduce_to_necessary_data);
+\* overriding columns outside the graph are reported separately (_fail_if_columns_overriding_functions_are_not_in_dag)
+Minimal(c) ==
+  LET cfg == Cfg(c)
+      T == SeqToSet(c.targets)
+      full == TableFull(cfg, T)
+      tab == [n \in DOMAIN full \ cfg.data |-> full[n]]
+      anc == Ancestors(tab, T) IN
+  [case |-> c.id,
+   unused_data |-> cfg.data \ anc,
+   unused_overriding |-> (cfg.data \cap DOMAIN full) \ anc]
 Init == l = 1 /\ out = <<>>
-Step == l <= Len(Cases) /\ out' = Append(out, Judge(Cases[l])) /\ l' = l + 1
+Step == l <= Len(Cases) /\ out' = Append(out, IF "minimal" \in DOMAIN Cases[l] THEN Minimal(Cases[l]) ELSE Judge(Cases[l])) /\ l' = l + 1
 Spec == Init /\ [][Step]_vars
 Done == (l = Len(Cases) + 1) => JsonSerialize(OutFile, out)
 Consumed == TLCGet("stats").diameter - 1 = Len(Cases)
